@@ -84,6 +84,24 @@ CHECKS["C07"] = dict(
          "actors on the follower path is fire-and-forget and compared only after quiescence",
     design_ref="5 C07")
 
+CHECKS["C08"] = dict(
+    engine="snapinstall",
+    technique="TLA+ spec SnapInstall.tla (leader log / compaction / membership, entry replication, chunked snapshot stream "
+              "with lost answers, repeated final chunk, follower crash and restart, stream abort; invariants "
+              "InstalledIntact and FollowerServesPrefix; five Defect_* negative controls) model-checked by TLC; "
+              "TLC-simulated behaviours replayed on a real leader node and a real follower node with hand-carried entries "
+              "and chunks, the follower's served state and membership compared with the specification after every step "
+              "and after a final restart",
+    text="The model decides the design of the install protocol exhaustively for small constants (3-4 log entries, 2-3 "
+         "chunks); conformance replays TLC schedules on two real nodes: FileStore::do_log_compaction / get_current_snapshot "
+         "on the leader, create_snapshot / chunk writes / finalize_snapshot_installation, log appends and process restarts "
+         "on the follower.",
+    note="the follower-side chunk handler is a transcription of async-raft 0.6.3 core::install_snapshot running on the real "
+         "FileStore (no network, no Raft core); chunk size chosen per snapshot instead of 3 MiB; a follower crash lets "
+         "acknowledged writes reach the disk (C04's subject otherwise); two findings are listed as known (resumed install "
+         "after a follower restart; deleted items surviving an install until restart)",
+    design_ref="5 C08")
+
 CHECKS["C09"] = dict(
     engine="configcenter",
     technique="TLA+ spec ConfigCenter.tla (store/listing/history semantics; TLC invariants on history), TLC-simulated "
